@@ -230,6 +230,12 @@ func put(v interface{}, path string, value interface{}, prepend bool, set func(i
 			return Missing, false
 		}
 
+		// limit the number of elements that are filled in (as MongoDB does);
+		// this also keeps index+1 from overflowing
+		if index-len(arr) > 1500000 {
+			return Missing, false
+		}
+
 		// fill with nil elements
 		for i := len(arr); i < index+1; i++ {
 			arr = append(arr, nil)
